@@ -200,7 +200,7 @@ def plan(tier):
                         "blocks other than last, BL/BLX halves with J1/J2 != 1 before version 6) are executed but not "
                         "compared", "thorough all-encodings sweep: one address (0x10800), version 7, svc, outside IT "
                         "blocks; BLX A2 takes H from imm24 (bit 0 xor bit 12) there"],
-        "deadline_s": 100 if tier == "quick" else 2400,
+        "deadline_s": 300 if tier == "quick" else 2400,
     }
 
 
